@@ -486,6 +486,7 @@ def units(tier):
     gmp_cohomology_units(U)
     gmp_inverse_units(U)
     small_element_inverse_units(U)
+    gmp_element_inverse_units(U)
     return U
 
 
@@ -1317,6 +1318,40 @@ __CPROVER_assigns(g_inv_calls, g_inv_e, g_inv_m, g_pmi_calls, g_pmi_arg, g_mul_c
         U.append(Unit(f"{key}.get_partial_inverse", "C10", [fn], enforce="get_partial_inverse", globals_=G, inputs=["in_q", "element_"], replay=mk_replay_native(key),
                       harness=H("  unsigned in_q = nondet_uint(); element_ = nondet_uint(); g_inv_calls = 0; g_pmi_calls = 0; g_mul_calls = 0;", "get_partial_inverse(in_q);"),
                       desc=f"{cls}::get_partial_inverse(Q): with g = gcd(element, Q) - the gcd with the ARGUMENT, not with the whole product: (0, 1) when g == Q; otherwise T = Q / g is returned, and the value is the partial identity of T times the inverse of the element modulo T"))
+
+def gmp_element_inverse_units(U):
+    """get_partial_inverse of the two GMP element classes, in the same ghost / uninterpreted style."""
+    for key, hdr, cls, sel in (
+            ("mf_el", "Multi_field.h", "Multi_field_element", r"Multi_field_element<minimum, maximum>::get_partial_inverse\(const Characteristic& productOfCharacteristics\) const"),
+            ("mf_sh", "Multi_field_shared.h", "Shared_multi_field_element", r"Shared_multi_field_element::get_partial_inverse\(const Characteristic& productOfCharacteristics\) const")):
+        path = F + hdr
+        G = ("typedef mpz_class Element; typedef mpz_class Characteristic;\nElement element_; Characteristic multiplicativeID_;\n"
+             "typedef struct { Element first; Characteristic second; } vp_pair;\n"
+             "Element g_pmi; Characteristic g_pmi_arg; unsigned g_pmi_calls; Element g_mul; Element g_mul_a, g_mul_b; unsigned g_mul_calls;\n"
+             "static Element pmi_stub(Characteristic q) { g_pmi_calls++; g_pmi_arg = q; return g_pmi; }\n"
+             "static Element el_mul_stub(Element a, Element b) { g_mul_calls++; g_mul_a = a; g_mul_b = b; return g_mul; }\n"
+             "long nondet_long(void);\n")
+        GCD = "__CPROVER_uninterpreted_mpz_gcd(element_, productOfCharacteristics)"
+        QT = f"TDIVQ(productOfCharacteristics, {GCD})"
+        con = f"""
+__CPROVER_requires(productOfCharacteristics >= 1 && g_pmi_calls == 0 && g_mul_calls == 0)
+__CPROVER_ensures({GCD} != productOfCharacteristics || (__CPROVER_return_value.first == 0 && __CPROVER_return_value.second == multiplicativeID_ && g_pmi_calls == 0 && g_mul_calls == 0))
+__CPROVER_ensures({GCD} == productOfCharacteristics || (__CPROVER_return_value.second == {QT} && g_pmi_calls == 1 && g_pmi_arg == {QT}))
+__CPROVER_ensures({GCD} == productOfCharacteristics || (g_mul_calls == 1 && g_mul_a == g_pmi && g_mul_b == __CPROVER_uninterpreted_mpz_invert(element_, {QT}) && __CPROVER_return_value.first == g_mul))
+__CPROVER_assigns(g_pmi_calls, g_pmi_arg, g_mul_calls, g_mul_a, g_mul_b)
+"""
+        fn = Fn(path, sel, "get_partial_inverse", con,
+                sig_subs=[(r"^.*?get_partial_inverse\(", "vp_pair get_partial_inverse(")], scopes=[cls],
+                subs=[(r"(\b\w+)\.get_mpz_t\(\)", r"\1"), (r"\bmpz_gcd\(", "VP_MPZ_GCD("), (r"\bmpz_invert\(", "VP_MPZ_INVERT("),
+                      (r"\b(\w+) / (\w+)\b", r"vp_mpz_tdiv_q(\1, \2)"),
+                      (rf"return \{{{cls}\(\), (\w+)\}};", r"return (vp_pair){0, \1};"),
+                      (r"auto (\w+) = get_partial_multiplicative_identity\(([^;]*)\);", r"Element \1 = pmi_stub(\2);"),
+                      (r"(\w+) \*= (\w+);", r"\1 = el_mul_stub(\1, \2);"), (r"return \{(\w+), (\w+)\};", r"return (vp_pair){\1, \2};")],
+                canary=(r"pmi_stub\(QT\)", "pmi_stub(productOfCharacteristics)"))
+        U.append(Unit(f"{key}.get_partial_inverse", "C10", [fn], enforce="get_partial_inverse", includes=["c10_gmp_glue.h"], globals_=G, inputs=["in_q", "element_"],
+                      replay=mk_replay_native(key), runs=[Run(backend="sat", timeout=300)],
+                      harness=H("  long in_q = nondet_long(); element_ = nondet_long(); g_pmi_calls = 0; g_mul_calls = 0;", "get_partial_inverse(in_q);"),
+                      desc=f"{cls}::get_partial_inverse(Q) (GMP): with g = gcd(element, Q): (0, 1) when g == Q; otherwise T = Q / g is returned and the value is the partial identity of T times invert(element, T)"))
 
 TRUSTED = [
     "vp/prelude.h: spec functions RES_U/ADDMOD/SUBMOD/MATHMOD64 and the R11 stand-ins (VP_SWAP_U, vp_gcd_u)",
